@@ -37,6 +37,8 @@ class BuiltinMixin(CallMixin):
     # ------------------------------------------------------------------ python builtins
     def call_builtin(self, st: State, ctx: Ctx, name: str, args: list, kwargs: dict, line: int):
         a = [ops.lift(x) for x in args]
+        if name == "nondet":
+            return [(st, self.make_symbolic(st, args[0], "nd"))]
         if name.startswith("nondet_"):
             t = name[7:]
             return [(st, smt.fresh("nd_" + t, sort_of_type(t)))]
@@ -632,6 +634,5 @@ class BuiltinMixin(CallMixin):
         if name == "typeof":
             v = args[0]
             cls = self.class_by_name(args[1])
-            c = self.class_of(v)
-            return z3.BoolVal(c is not None and self.is_subclass(c, cls))
+            return self.typeof_term(st, v, cls)
         raise EngineError(f"spec function {name}")
